@@ -106,4 +106,4 @@ def cut(func, rewriter=None):
     code = compile(mod, inspect.getsourcefile(func) or "<loopcut>", "exec")
     exec(code, g)
     return {"init": g["__init_fn"], "body": g["__body_fn"], "cond": g["__cond_fn"], "tail": g["__tail_fn"],
-            "vars": names, "params": params}
+            "vars": names, "params": params, "globals": g}
